@@ -396,7 +396,7 @@ func (ex *Exec) where() string {
 func shortFile(f string) string {
 	if i := strings.LastIndex(f, "/"); i >= 0 {
 		// keep one directory level for ds/*
-		if j := strings.LastIndex(f[:i], "/"); j >= 0 && strings.HasPrefix(f, "/repo/ds/") {
+		if j := strings.LastIndex(f[:i], "/"); j >= 0 && strings.HasPrefix(f, repoRoot+"/ds/") {
 			return f[j+1:]
 		}
 		return f[i+1:]
